@@ -82,6 +82,11 @@ func draw(t *rapid.T) Case {
 }
 
 func apply(c Case) (out []byte, err error, p error) {
+	return applyVia(c, false)
+}
+
+// applyVia with indent: the indenting entry point (two spaces).
+func applyVia(c Case, indent bool) (out []byte, err error, p error) {
 	p = ev.Safe(func() {
 		var pt jl.Patch
 		pt, err = jl.DecodePatch([]byte(c.Patch))
@@ -92,7 +97,11 @@ func apply(c Case) (out []byte, err error, p error) {
 		old := jl.SupportNegativeIndices
 		jl.SupportNegativeIndices = c.Neg
 		defer func() { jl.SupportNegativeIndices = old }()
-		out, err = pt.Apply([]byte(c.Doc))
+		if indent {
+			out, err = pt.ApplyIndent([]byte(c.Doc), "  ")
+		} else {
+			out, err = pt.Apply([]byte(c.Doc))
+		}
 	})
 	return
 }
@@ -136,6 +145,10 @@ func check(c Case) ev.Verdict {
 			v.Err = fmt.Errorf("operation %d (%s) is inapplicable (%s) but Apply succeeded with %s", want.FailAt, op.Op, cause, out)
 		} else if out != nil {
 			v.Err = fmt.Errorf("error %v returned together with a document", err)
+		} else if iout, ierr, ipn := applyVia(c, true); ipn != nil {
+			v.Err = fmt.Errorf("ApplyIndent: %v", ipn)
+		} else if ierr == nil || iout != nil {
+			v.Err = fmt.Errorf("Apply fails (%v) but ApplyIndent returns %q, %v", err, iout, ierr)
 		}
 		return v
 	}
@@ -151,13 +164,23 @@ func check(c Case) ev.Verdict {
 	}
 	if !ref.Equal(g, want.Doc) {
 		v.Err = fmt.Errorf("result differs from the RFC result (up to member order, numbers by literal)\n got:  %s\n want: %s", out, want.Doc)
+		return v
+	}
+	// the indenting entry point is the same Apply
+	iout, ierr, ipn := applyVia(c, true)
+	if ipn != nil {
+		v.Err = fmt.Errorf("ApplyIndent: %v", ipn)
+	} else if ierr != nil {
+		v.Err = fmt.Errorf("Apply succeeds but ApplyIndent fails: %v", ierr)
+	} else if gi, perr := ref.Parse(iout); perr != nil || !ref.Equal(gi, want.Doc) {
+		v.Err = fmt.Errorf("ApplyIndent's result differs from the RFC result\n got:  %s\n want: %s", iout, want.Doc)
 	}
 	return v
 }
 
 var unit = ev.Unit[Case]{
 	Name: "legacy-apply",
-	Rule: "as C01 against the staged root package: document x state-aware sequence of 0-8 operations (no root-replacing add, no copy from \"\", test values without strings that need escaping) x SupportNegativeIndices via the package variable; oracle: reference evaluator - all applicable => success and Equal up to member order with number literals; first failure a failed test, a remove/move of an absent location, an out-of-range or negative-while-off index => error and nil document; other first failures excluded (v4 accepts e.g. replace of an absent member); non-trivial as C01",
+	Rule: "as C01 against the staged root package: document x state-aware sequence of 0-8 operations (no root-replacing add, no copy from \"\", test values without strings that need escaping) x SupportNegativeIndices via the package variable; oracle: reference evaluator - all applicable => success and Equal up to member order with number literals; first failure a failed test, a remove/move of an absent location, an out-of-range or negative-while-off index => error and nil document; other first failures excluded (v4 accepts e.g. replace of an absent member); the indenting entry point ApplyIndent must give the same outcome and value; non-trivial as C01",
 	Draw: draw, Check: check,
 }
 
